@@ -29,6 +29,25 @@ extern "C" void h_header_any() {
     if (n >= 6 && !(buf[0] == 0xCA && buf[1] == 0xFE)) VP_ASSERT(r < 0, "a wrong header code is reported as an error by return value");
     VP_REACH("header_any");
 }
+// raw (bracket-matching) framing: arbitrary short texts over the structural alphabet - including brackets that do not pair - are answered by
+// return value (0 incomplete, -1 malformed, >0 consumed), never by an exception
+#ifndef RN
+#define RN 3
+#endif
+extern "C" void h_raw_any() {
+    jsonrpc::RawStreamProto p;
+    g_msgs = 0;
+    p.setRecvCallback([](int, const std::string &, const Json &) { g_msgs++; }, [](int, int, const Json &) { g_msgs++; });
+    static const char ALPH[8] = {'{', '}', '[', ']', '"', '1', ',', ' '};
+    char buf[RN + 1];
+    for (int i = 0; i < RN; i++) { unsigned k = nondet_uchar(); VP_ASSUME(k < 8); buf[i] = ALPH[k]; }
+    buf[RN] = 0;
+    size_t n = nondet_ulong(); VP_ASSUME(n <= RN);
+    ssize_t r = p.onRecvData(buf, n);                                  // an escaping exception (e.g. std::length_error) is reported by the engine
+    VP_ASSERT(r >= -1 && r <= (ssize_t)n, "raw framing answers by return value: -1 malformed, 0 need more, otherwise the bytes consumed (never more than given)");
+    VP_ASSERT(g_msgs == 0, "text that is not a JSON-RPC message is not delivered as one");
+    VP_REACH("raw_any");
+}
 // timeout monitor: every value added completes exactly once after the configured number of ticks, also when the callback adds new values
 #define NT 3
 static int fired[8]; static int added; static eventx::TimeoutMonitor<int> *g_mon; static unsigned g_retry_mask;
